@@ -224,7 +224,16 @@ func (g *gImpl) runThread(t *thread) {
 			if c.d < 0 {
 				g.lb += c.d
 			}
-			v := g.wg.Add(c.d)
+			// the property quantifies over Add, Inc and Dec: unit deltas go through the wrappers
+			var v int
+			switch c.d {
+			case 1:
+				v = g.wg.Inc()
+			case -1:
+				v = g.wg.Dec()
+			default:
+				v = g.wg.Add(c.d)
+			}
 			if c.d > 0 {
 				g.lb += c.d
 			}
